@@ -84,7 +84,7 @@ func (c *Ctx) decodedSliceOrigin(fn *ssa.Function, slice ssa.Value, at ssa.Instr
 			if !isRt || x.Index >= len(rt.Results) {
 				return
 			}
-			rv := rt.Results[x.Index]
+			rv := blockLocalValue(rt.Results[x.Index])
 			if isNilConst(rv) {
 				hasNil = true
 				return
@@ -93,7 +93,7 @@ func (c *Ctx) decodedSliceOrigin(fn *ssa.Function, slice ssa.Value, at ssa.Instr
 				if al, isAl := ld.X.(*ssa.Alloc); isAl {
 					if _, isDec := gdec[al]; isDec {
 						tainted = true
-						m, _ := lenFactsBound(cmpFactsAt(rt.Block()), rv)
+						m, _ := lenFactsBoundIn(cmpFactsAt(rt.Block()), rv, call)
 						if m < min {
 							min = m
 						}
@@ -224,10 +224,19 @@ func (c *Ctx) normalisedKey(v ssa.Value, depth int) (bool, string) {
 	case *ssa.Const:
 		return true, "constant"
 	case *ssa.Extract:
-		if call, ok := x.Tuple.(*ssa.Call); ok && x.Index == 0 && staticCallee(call) == r.FnNorm {
-			return true, "result of the id normaliser"
+		if call, ok := x.Tuple.(*ssa.Call); ok {
+			if x.Index == 0 && staticCallee(call) == r.FnNorm {
+				return true, "result of the id normaliser"
+			}
+			if ok, why, decided := c.resultNormalised(call, x.Index, depth); decided {
+				return ok, why
+			}
 		}
 		return false, "tuple result of something other than the id normaliser"
+	case *ssa.Call:
+		if ok, why, decided := c.resultNormalised(x, 0, depth); decided {
+			return ok, why
+		}
 	case *ssa.Phi:
 		for _, e := range x.Edges {
 			if ok, why := c.normalisedKey(e, depth+1); !ok {
@@ -257,6 +266,33 @@ func (c *Ctx) normalisedKey(v ssa.Value, depth int) (bool, string) {
 		return c.paramNormalised(x, depth, func(arg ssa.Value) (bool, string) { return c.normalisedKey(arg, depth+1) })
 	}
 	return false, fmt.Sprintf("key originates from %T, not from the id normaliser", v)
+}
+
+// resultNormalised: result idx of a call of a tree helper is normalised on every return of the helper.
+func (c *Ctx) resultNormalised(call *ssa.Call, idx int, depth int) (bool, string, bool) {
+	g := c.P.unbound(staticCallee(call))
+	if g == nil || !c.P.allFns[g] || len(g.Blocks) == 0 || g == c.R.FnNorm {
+		return false, "", false
+	}
+	n := 0
+	bad := ""
+	allInstrsRaw(g, func(in ssa.Instruction) {
+		rt, ok := in.(*ssa.Return)
+		if !ok || idx >= len(rt.Results) {
+			return
+		}
+		n++
+		if ok, why := c.normalisedKey(rt.Results[idx], depth+1); !ok && bad == "" {
+			bad = fmt.Sprintf("helper %s returns an un-normalised value (%s)", fname(g), why)
+		}
+	})
+	if n == 0 {
+		return false, "", false
+	}
+	if bad != "" {
+		return false, bad, true
+	}
+	return true, "every return of helper " + fname(g) + " yields a normalised value", true
 }
 
 func stripConvKeepIface(v ssa.Value) ssa.Value {
@@ -338,71 +374,14 @@ func (c *Ctx) normalisedIDField(sv ssa.Value, f *types.Var, depth int) (bool, st
 	return false, fmt.Sprintf("id field of a struct originating from %T", sv)
 }
 
-// fromRequestQueue: v is (a copy of) the element received from F_requests in the loop.
+// fromRequestQueue: v (a value, or the address of a variable) is, on every origin, (part of)
+// an element received from the request queue by the connection loop.
 func (c *Ctx) fromRequestQueue(v ssa.Value) bool {
-	for i := 0; i < 6; i++ {
-		switch x := v.(type) {
-		case *ssa.Extract:
-			if sel, ok := x.Tuple.(*ssa.Select); ok {
-				// which state does this extract belong to?
-				arms, _ := selectArms(sel)
-				for _, a := range arms {
-					if a.Recv == ssa.Value(x) {
-						if _, ok := loadsField(a.State.Chan, c.R.FRequests); ok {
-							return true
-						}
-					}
-				}
-			}
-			return false
-		case *ssa.UnOp:
-			if x.Op == token.MUL {
-				if al, ok := x.X.(*ssa.Alloc); ok {
-					// local copy: single store of a queue element
-					var st *ssa.Store
-					n := 0
-					for _, ref := range *al.Referrers() {
-						if s, ok := ref.(*ssa.Store); ok && s.Addr == al {
-							st = s
-							n++
-						}
-					}
-					if n == 1 {
-						v = st.Val
-						continue
-					}
-				}
-				if fa, ok := x.X.(*ssa.FieldAddr); ok {
-					v = fa.X
-					continue
-				}
-			}
-			return false
-		case *ssa.Alloc:
-			var st *ssa.Store
-			n := 0
-			for _, ref := range *x.Referrers() {
-				if s, ok := ref.(*ssa.Store); ok && s.Addr == x {
-					st = s
-					n++
-				}
-			}
-			if n == 1 {
-				v = st.Val
-				continue
-			}
-			return false
-		case *ssa.FieldAddr:
-			v = x.X
-			continue
-		case *ssa.Field:
-			v = x.X
-			continue
-		default:
-			return false
-		}
+	switch v.(type) {
+	case *ssa.Alloc, *ssa.FieldAddr:
+		v = &ssa.UnOp{Op: token.MUL, X: v}
 	}
-	return false
+	return c.allOrigins(v, func(a apath) bool { return c.isQueueRecv(a.Root) })
 }
 
 func (c *Ctx) normalisedIDFieldAddr(fa *ssa.FieldAddr, load *ssa.UnOp, depth int) (bool, string) {
@@ -568,69 +547,165 @@ func roleName(r *Roles, f *types.Var) string {
 }
 
 // ---- R10.3
+// Event form: from every decode of an inbound frame (in the executor's call cone) to the
+// first test of the frame's method (the frame switch, wherever it lives), every path takes
+// the nil side of a test of the decode error, passes a call of the id normaliser, and after
+// that takes the nil side of a test of the normaliser's error.
 func (c *Ctx) execGateRule(rule string) {
-	r := c.R
+	p, r := c.P, c.R
 	if !c.need(rule, "FN_exec", r.FnExec != nil) || !c.need(rule, "T_frame", r.TFrame != nil) {
 		return
 	}
-	fn := r.FnExec
-	// dispatch calls: static calls in FN_exec passing a frame-typed value
-	var dispatch []*ssa.Call
-	allInstrs(fn, func(in ssa.Instruction) {
-		call, ok := in.(*ssa.Call)
-		if !ok || staticCallee(call) == nil || !c.P.allFns[staticCallee(call)] {
+	mf := respFieldByTag(r.TFrame, "method")
+	isSwitch := func(in ssa.Instruction) bool {
+		iff, ok := in.(*ssa.If)
+		if !ok {
+			return false
+		}
+		bo, ok := iff.Cond.(*ssa.BinOp)
+		if !ok || bo.Op != token.EQL {
+			return false
+		}
+		if _, ok := constString(bo.Y); ok {
+			return c.fieldVal(bo.X, mf)
+		}
+		if _, ok := constString(bo.X); ok {
+			return c.fieldVal(bo.Y, mf)
+		}
+		return false
+	}
+	var decodes, norms []*ssa.Call
+	p.coneInstrs(r.FnExec, func(in ssa.Instruction) {
+		ci, ok := in.(*ssa.Call)
+		if !ok {
 			return
 		}
-		for _, a := range call.Common().Args {
-			if a.Type() == types.Type(r.TFrame) {
-				dispatch = append(dispatch, call)
+		if t := decodeTarget(ci); t != nil {
+			if pt, ok := t.Type().Underlying().(*types.Pointer); ok && pt.Elem() == types.Type(r.TFrame) {
+				decodes = append(decodes, ci)
 			}
 		}
+		if p.unbound(staticCallee(ci)) == r.FnNorm {
+			norms = append(norms, ci)
+		}
 	})
-	if len(dispatch) == 0 {
-		c.und(rule, fname(fn)+": dispatch call", c.P.pos(fn.Pos()), "no call passing a decoded frame found in the frame executor")
+	if len(decodes) == 0 {
+		c.und(rule, fname(r.FnExec)+": frame decode", p.pos(r.FnExec.Pos()), "no decode of an inbound frame found in the frame executor's call cone")
 		return
 	}
-	for _, d := range dispatch {
-		construct := fmt.Sprintf("%s: dispatch call to %s", fname(fn), fname(staticCallee(d)))
-		// error values that must be nil here
-		var errs []ssa.Value
-		var labels []string
-		allInstrs(fn, func(in ssa.Instruction) {
-			ci, ok := in.(*ssa.Call)
+	// nilSideVeto: forbid the edges on which error value e is known to be nil
+	nilSideVeto := func(e ssa.Value) func(*ssa.BasicBlock, int) bool {
+		return func(b *ssa.BasicBlock, k int) bool {
+			iff, ok := b.Instrs[len(b.Instrs)-1].(*ssa.If)
 			if !ok {
-				return
+				return true
 			}
-			if t := decodeTarget(ci); t != nil {
-				if al, ok := t.(*ssa.Alloc); ok && al.Type().(*types.Pointer).Elem() == types.Type(r.TFrame) {
-					errs = append(errs, ci)
-					labels = append(labels, "frame decode error")
-				}
+			bo, ok := iff.Cond.(*ssa.BinOp)
+			if !ok || (bo.Op != token.NEQ && bo.Op != token.EQL) {
+				return true
 			}
-			if staticCallee(ci) == r.FnNorm {
-				for _, ref := range *ci.Referrers() {
-					if ex, ok := ref.(*ssa.Extract); ok && ex.Index == 1 {
-						errs = append(errs, ex)
-						labels = append(labels, "id normalisation error")
-					}
-				}
+			var other ssa.Value
+			if isNilConst(bo.Y) {
+				other = bo.X
+			} else if isNilConst(bo.X) {
+				other = bo.Y
+			} else {
+				return true
 			}
-		})
-		if len(errs) < 2 {
-			c.bad(rule, construct, c.ipos(d), fmt.Sprintf("expected a frame decode and an id normalisation before dispatch, found %d error source(s)", len(errs)))
+			if !c.isErrOf(other, e) {
+				return true
+			}
+			nilSide := 1
+			if bo.Op == token.EQL {
+				nilSide = 0
+			}
+			return k != nilSide
+		}
+	}
+	search := func(from ssa.Instruction, target, avoid ipred, veto func(*ssa.BasicBlock, int) bool) ssa.Instruction {
+		s := newIPSearch(target, avoid)
+		s.up = true
+		s.edgeOK = veto
+		if s.scan(from.Block(), instrIndex(from)+1, nil) {
+			return s.found
+		}
+		return nil
+	}
+	isDecode := func(in ssa.Instruction) bool {
+		for _, d := range decodes {
+			if in == ssa.Instruction(d) {
+				return true
+			}
+		}
+		return false
+	}
+	isNorm := func(in ssa.Instruction) bool {
+		for _, n := range norms {
+			if in == ssa.Instruction(n) {
+				return true
+			}
+		}
+		return false
+	}
+	for _, d := range decodes {
+		construct := fmt.Sprintf("%s: decoded frame reaches the frame switch", fname(d.Parent()))
+		if search(d, isSwitch, nil, nil) == nil {
+			c.und(rule, construct, c.ipos(d), "the frame switch (test of the frame's method) is not reachable from this decode")
 			continue
 		}
 		okAll := true
-		for i, e := range errs {
-			if !c.knownNil(d.Block(), e) {
+		if wv := search(d, isSwitch, isDecode, nilSideVeto(d)); wv != nil {
+			okAll = false
+			c.bad(rule, construct, c.ipos(d), "frame decode error is not known to be nil when the frame is dispatched (invalid frames must be dropped)")
+		}
+		if wv := search(d, isSwitch, func(in ssa.Instruction) bool { return isDecode(in) || isNorm(in) }, nil); wv != nil {
+			okAll = false
+			c.bad(rule, construct, c.ipos(d), "a path dispatches the frame without passing the id normaliser")
+		}
+		for _, n := range norms {
+			var errv ssa.Value
+			for _, ref := range *n.Referrers() {
+				if ex, ok := ref.(*ssa.Extract); ok && ex.Index == 1 {
+					errv = ex
+				}
+			}
+			if errv == nil {
 				okAll = false
-				c.bad(rule, construct, c.ipos(d), labels[i]+" is not known to be nil when the frame is dispatched (invalid frames must be dropped)")
+				c.bad(rule, construct, c.ipos(n), "the id normaliser's error is discarded")
+				continue
+			}
+			n := n
+			if wv := search(n, isSwitch, func(in ssa.Instruction) bool { return isDecode(in) || in == ssa.Instruction(n) }, nilSideVeto(errv)); wv != nil {
+				okAll = false
+				c.bad(rule, construct, c.ipos(n), "id normalisation error is not known to be nil when the frame is dispatched (invalid frames must be dropped)")
 			}
 		}
 		if okAll {
-			c.ok(rule, construct, c.ipos(d), "dominated by the nil branches of the decode and normalisation errors")
+			c.ok(rule, construct, c.ipos(d), "every path to the frame switch takes the nil branches of the decode and normalisation errors")
 		}
 	}
+}
+
+// isErrOf: v is error value e (directly, through a local, or as the result of the helper that produced it).
+func (c *Ctx) isErrOf(v, e ssa.Value) bool {
+	if v == e || aliasOfLocal(v, e) {
+		return true
+	}
+	some := false
+	for _, o := range c.origins(v) {
+		if len(o.Fields) != 0 {
+			return false
+		}
+		if o.Root == e {
+			some = true
+			continue
+		}
+		if isNilConst(o.Root) {
+			continue
+		}
+		return false
+	}
+	return some
 }
 
 // knownNil: on entry to block b, is error value e known to be nil? e may have been
@@ -728,22 +803,73 @@ func (c *Ctx) commaOkRule(rule string) {
 				c.ok(rule, construct, c.ipos(lk), "value unused")
 				continue
 			}
-			bad := false
-			for _, use := range transitiveUses(val) {
-				if _, isDbg := use.(*ssa.DebugRef); isDbg {
-					continue
-				}
-				if okv == nil || !condKnown(use.Block(), okv, true) {
-					bad = true
-					c.bad(rule, construct, c.ipos(use), "the looked-up entry is used on a path where the lookup may have failed (unknown id from the peer)")
-					break
-				}
-			}
-			if !bad {
+			if use := c.unguardedLookupUse(val, okv, 0); use != nil {
+				c.bad(rule, construct, c.ipos(use), "the looked-up entry is used on a path where the lookup may have failed (unknown id from the peer)")
+			} else {
 				c.ok(rule, construct, c.ipos(lk), "every use of the entry is dominated by the found branch")
 			}
 		}
 	}
+}
+
+// unguardedLookupUse: a use of looked-up value val not dominated by the found branch of okv.
+// A helper that merely returns (val, ok) hands the obligation to its call sites.
+func (c *Ctx) unguardedLookupUse(val, okv ssa.Value, depth int) ssa.Instruction {
+	for _, use := range transitiveUses(val) {
+		if _, isDbg := use.(*ssa.DebugRef); isDbg {
+			continue
+		}
+		if okv != nil && condKnown(use.Block(), okv, true) {
+			continue
+		}
+		if rt, ok := use.(*ssa.Return); ok && okv != nil && depth < 3 {
+			vi, oi := -1, -1
+			for i, res := range rt.Results {
+				if res == val {
+					vi = i
+				}
+				if res == okv {
+					oi = i
+				}
+			}
+			fn := rt.Parent()
+			sites := c.P.callers[fn]
+			if vi >= 0 && oi >= 0 && len(sites) > 0 && !c.P.asyncValueUsed(fn) {
+				var bad ssa.Instruction
+				for _, s := range sites {
+					call, isCall := s.(*ssa.Call)
+					if !isCall {
+						bad = s
+						break
+					}
+					var v2, o2 ssa.Value
+					for _, ref := range *call.Referrers() {
+						if ex, ok := ref.(*ssa.Extract); ok {
+							if ex.Index == vi {
+								v2 = ex
+							}
+							if ex.Index == oi {
+								o2 = ex
+							}
+						}
+					}
+					if v2 == nil {
+						continue
+					}
+					if b := c.unguardedLookupUse(v2, o2, depth+1); b != nil {
+						bad = b
+						break
+					}
+				}
+				if bad == nil {
+					continue
+				}
+				return bad
+			}
+		}
+		return use
+	}
+	return nil
 }
 
 // lookupOfRangedKey: key comes from a `range` over the same map (closeChans idiom).
@@ -1027,4 +1153,33 @@ func fieldPlusConst(v ssa.Value) (*types.Var, int64, bool) {
 		return fieldOfField(f), 0, true
 	}
 	return nil, 0, false
+}
+
+// blockLocalValue: a load of a local variable that was stored earlier in the same block
+// (named results are written and re-read at every return) stands for the stored value.
+func blockLocalValue(v ssa.Value) ssa.Value {
+	for i := 0; i < 4; i++ {
+		ld, ok := v.(*ssa.UnOp)
+		if !ok || ld.Op != token.MUL {
+			return v
+		}
+		al, ok := ld.X.(*ssa.Alloc)
+		if !ok {
+			return v
+		}
+		var last *ssa.Store
+		for _, in := range ld.Block().Instrs {
+			if in == ssa.Instruction(ld) {
+				break
+			}
+			if st, ok := in.(*ssa.Store); ok && st.Addr == ssa.Value(al) {
+				last = st
+			}
+		}
+		if last == nil {
+			return v
+		}
+		v = last.Val
+	}
+	return v
 }
